@@ -11,7 +11,7 @@ import (
 )
 
 func init() {
-	register("C03", 22, "Decided (for every path of the current source): (R1) the cursor state (current chunk, index, accumulator) is touched only by the buffer's own methods; (R2) in each of the three readers, on every arm between two chunk fetches the cursor advances by exactly what was consumed — delimiter arm: index+1 with the chunk cut at that same index, else the whole chunk length; sized read: the number of bytes still wanted with the chunk cut at that same number; the Windows reader's extra step over the newline after '!' is an in-bounds test — and what is appended to the accumulator is that (cut) chunk; the junk-tolerant continuation inspects the accumulator, not the current chunk; (R3) a fetch never waits while unread bytes of the current chunk remain, and the pop used by the relay returns that remainder first; (R4) every producer of the chunk queue hands over a buffer it never writes again. Not decided: equality with a reference parse for all segmentations, CR/LF joining semantics.",
+	register("C03", 22, "Decided (for every path of the current source): (R1) the cursor state (current chunk, index, accumulator) is touched only by the buffer's own methods; (R2) in each of the three readers, on every arm between two chunk fetches the cursor advances by exactly what was consumed — delimiter arm: index+1 with the chunk cut at that same index, else the whole chunk length; sized read: the number of bytes still wanted with the chunk cut at that same number; the Windows reader's extra step over the newline after '!' is an in-bounds test — and what is appended to the accumulator is that (cut) chunk; the junk-tolerant continuation inspects the accumulator, not the current chunk; (R3) a fetch never waits while unread bytes of the current chunk remain, and the pop used by the relay returns that remainder first; (R4) every producer of the chunk queue hands over a buffer it never writes again. Not decided: equality with a reference parse for all segmentations, CR/LF joining semantics. (R5) the server input pump queues exactly buffer[0:n] of every non-empty read and ends exactly on a read error.",
 		func(c *Ctx) {
 			c.run("C03-R1", "WHO-WRITES: cursor state is private to the buffer", c03R1)
 			c.run("C03-R2", "GUARD-DOM: cursor advance = bytes consumed, on every arm", c03R2)
